@@ -162,6 +162,51 @@ def h_plot_contour(h):
         h.close(scat[k][1][1], [srows[j][yi] for j in range(2)], "sample-y-as-supplied")
 
 
+def h_plot_real_contour(h):
+    """contours exactly as the contour classes produce them (their coordinate containers included), through
+    plot_2D_contour and save_contour_coordinates; concrete sample (the search loops are C03/C04's subject)"""
+    import os
+    import tempfile
+    import warnings
+    from .c04 import _Model
+    C, P = shim.mod("contours"), shim.mod("plotting")
+    rng = np.random.default_rng(h.cfg["seed"])
+    sample = np.c_[rng.weibull(1.5, 400) * 2.0 + 0.2, rng.lognormal(1.0, 0.3, 400)]
+    model = _Model(float(np.quantile(sample[:, 0], 0.9)), float(np.quantile(sample[:, 1], 0.9)))
+    cls = getattr(C, h.cfg["contour"])
+    with warnings.catch_warnings():
+        warnings.simplefilter("ignore")
+        c = cls(model, 0.1, sample=sample, deg_step=h.cfg["deg_step"])
+    h.reach()
+    pts = [(float(np.ravel(r[0])[0]), float(np.ravel(r[1])[0])) for r in c.coordinates]
+    n = len(pts)
+    swap = h.cfg["swap"]
+    xi, yi = (1, 0) if swap else (0, 1)
+    ax = stubs.RecAxes()
+    P.plot_2D_contour(c, sample=sample, swap_axis=swap, ax=ax)
+    plots = ax.of("plot")
+    h.check(len(plots) == 1, "one-polyline")
+    px, py = plots[0][1][0], plots[0][1][1]
+    h.check(len(px) == n + 1 and len(py) == n + 1, "closed-polyline-has-n-plus-one-points", f"{len(px)} for {n} points")
+    h.close([float(np.ravel(v)[0]) for v in px], [p_[xi] for p_ in pts] + [pts[0][xi]], "polyline-x-is-contour-in-order-first-point-repeated")
+    h.close([float(np.ravel(v)[0]) for v in py], [p_[yi] for p_ in pts] + [pts[0][yi]], "polyline-y-is-contour-in-order-first-point-repeated")
+    scat = ax.of("scatter")
+    h.check(len(scat) == 1, "sample-drawn")
+    h.close(scat[0][1][0], sample[:, xi], "sample-x-as-supplied")
+    h.close(scat[0][1][1], sample[:, yi], "sample-y-as-supplied")
+    if h.sym:
+        return
+    with tempfile.TemporaryDirectory(dir="/var/tmp") as tmp:
+        path = os.path.join(tmp, "c")
+        C.save_contour_coordinates(c, path)
+        lines = open(path + ".txt").read().splitlines()
+    h.check(len(lines) == n + 1, "one-row-per-contour-point", f"{len(lines) - 1} rows for {n} points")
+    for k in range(min(n, len(lines) - 1)):
+        vals = [float(v) for v in lines[k + 1].split(";")]
+        h.check(len(vals) == 2 and abs(vals[0] - pts[k][0]) <= 5.1e-7 and abs(vals[1] - pts[k][1]) <= 5.1e-7,
+                "saved-row-is-the-contour-point-to-6-decimals", f"row {k}: {lines[k + 1]} vs {pts[k]}")
+
+
 def h_plot_dependence(h):
     P = shim.mod("plotting")
     model, dims = build_model(h, (None, 0), rot=h.cfg["rot"])
@@ -357,6 +402,10 @@ def obligations(tier):
                     if dc == "true" and n < 4:
                         continue
                     yield ("plot_contour", h_plot_contour, {"n": n, "swap": swap, "dc": dc, "sample": sample}, {})
+    for cname in ("AndContour", "OrContour", "DirectSamplingContour"):
+        for swap in (False, True):
+            for seed, deg in (((1, 10),) if tier == "quick" else ((1, 10), (2, 5), (3, 15))):
+                yield ("plot_real_contour", h_plot_real_contour, {"contour": cname, "swap": swap, "seed": seed, "deg_step": deg}, {})
     rots = (0, 2) if tier == "quick" else range(7)
     for rot in rots:
         for fitted in (False, True):
